@@ -249,6 +249,14 @@ impl Memfs {
 
         // Validate the path itself
         if let Some(x) = guard.get_entry(&path) {
+            // Link exclusion i.e. an existing link is neither the file nor the directory asked for
+            if !entry.is_symlink() && x.is_symlink() {
+                return Err(match entry.is_file() {
+                    true => PathError::is_not_file(&path),
+                    false => PathError::is_not_dir(&path),
+                }
+                .into());
+            }
             if entry.is_file() && !x.is_file() {
                 return Err(PathError::is_not_file(&path).into());
             } else if entry.is_symlink() && !x.is_symlink() {
